@@ -283,6 +283,9 @@ func (r *Run) Finish(exhaustive bool) {
 		nViol++
 		h := sha256.Sum256([]byte(v.Key))
 		dir := filepath.Join(Root, "replays", r.ID)
+		if d := os.Getenv("VERIF_EVIDENCE_DIR"); d != "" {
+			dir = filepath.Join(d, "replays", r.ID)
+		}
 		os.MkdirAll(dir, 0o755)
 		v.path = filepath.Join(dir, hex.EncodeToString(h[:6])+".json")
 		b, _ := json.MarshalIndent(map[string]interface{}{"property": r.ID, "key": v.Key, "what": v.What, "replay": v.Replay}, "", " ")
@@ -339,9 +342,13 @@ func (r *Run) Finish(exhaustive bool) {
 		"violations":  nViol,
 	}
 	b, _ := json.MarshalIndent(out, "", " ")
-	os.MkdirAll(filepath.Join(Root, "evidence"), 0o755)
+	evDir := filepath.Join(Root, "evidence")
+	if d := os.Getenv("VERIF_EVIDENCE_DIR"); d != "" {
+		evDir = d
+	}
+	os.MkdirAll(evDir, 0o755)
 	if r.ReplayPath == "" {
-		if err := os.WriteFile(filepath.Join(Root, "evidence", r.ID+".json"), b, 0o644); err != nil {
+		if err := os.WriteFile(filepath.Join(evDir, r.ID+".json"), b, 0o644); err != nil {
 			fmt.Printf("BROKEN-CHECK cannot write evidence: %v\n", err)
 			os.Exit(2)
 		}
